@@ -603,6 +603,10 @@ pub fn spec(id: &str, variant: &str, cancelable: bool, thorough: bool) -> Option
                 ..base.clone().set(&[
                     (K::Bulk, 1),
                     (K::Root, 16),
+                    (K::SetLocalParent, 8),
+                    (K::CtxOfLocal, 4),
+                    (K::CtxOfSpan, 2),
+                    (K::RootFromCtx, 5),
                     (K::Cancel, 4),
                     (K::Exit, 4),
                     (K::Finish, 20),
@@ -628,7 +632,7 @@ pub fn spec(id: &str, variant: &str, cancelable: bool, thorough: bool) -> Option
                 cycles: (1, 8),
                 sched_len: (0, 40),
                 cancelable: Some(cancelable),
-                templates: vec![(3, Template::OverflowReplay)],
+                templates: vec![(3, Template::OverflowReplay), (1, Template::OverloadPush)],
                 ..base.clone().set(&[
                     (K::Fill, 10),
                     (K::Volley, 4),
@@ -640,6 +644,9 @@ pub fn spec(id: &str, variant: &str, cancelable: bool, thorough: bool) -> Option
                     (K::AddEventH, 3),
                     (K::AddPropsH, 2),
                     (K::AddEventL, 2),
+                    (K::CollectorStart, 3),
+                    (K::EnterLocal, 8),
+                    (K::PushChildSpans, 6),
                     (K::Burst, 0),
                 ])
             }),
@@ -763,6 +770,10 @@ pub fn spec(id: &str, variant: &str, cancelable: bool, thorough: bool) -> Option
                     (K::AddPropsL, 8),
                     (K::AddEventH, 10),
                     (K::AddEventL, 8),
+                    // a second root in the trace of a live one (a detached task continuing a trace)
+                    (K::CtxOfSpan, 3),
+                    (K::CtxOfLocal, 1),
+                    (K::RootFromCtx, 4),
                     (K::MultiChild, 5),
                     (K::Flush, 6),
                     (K::CollectorStart, 2),
